@@ -4,10 +4,11 @@
 tier=${1:-quick}; pat=${2:-*}
 here=$(cd "$(dirname "$0")/.." && pwd)
 mkdir -p /tmp/wt
-res=$here/seeded/RESULTS.md
+res=${RESULTS_OUT:-$here/seeded/RESULTS.md}
 echo "| seed | property | check run | exit | seconds | caught by (harness / label) |" > $res; echo "|---|---|---|---|---|---|" >> $res
 for d in $here/seeded/$pat/; do
   seed=$(basename $d)
+  if [ -n "$SEEDS" ]; then case " $SEEDS " in *" $seed "*) ;; *) continue;; esac; fi
   prop=$(python3 -c "import json;print(json.load(open('$d/meta.json'))['property'])" 2>/dev/null)
   [ -z "$prop" ] && prop=$(echo $seed | cut -c1-3)
   wt=/tmp/wt/sweep_${seed}_$$
